@@ -4,7 +4,7 @@ CFG = cfg('C18', extract='Ex_C18', driver='c18',
           rule='every corpus key (RSA 1024/2048/3072, DSA 1024/2048, Ed25519, Curve25519, ECDSA/ECDH on P-256/384/521 and secp256k1), primary and '
                'subkeys: PGPy fingerprint / key id / publen / emitted body vs the extracted model of PubKeyV4.fingerprint and of the packet-body encoder, '
                'vs the RFC 4880 12.2 / 5.5.2 transcription, and vs hashlib over the body PGPy exports; creation times 0, 1, 2^31-1, 2^31, 2^31+1, '
-               '2^32-2, 2^32-1 + random, as UTC-aware, offset-aware (+5:30, -8, +14, -12) and naive datetimes and as integers, each exported and re-read; '
+               '2^32-2, 2^32-1 + random, as UTC-aware, offset-aware (+5:30, -8, +14, -12) and naive datetimes and as integers, stored octets = int(dt.timestamp()), each exported and re-read, PGPKey.new with offset-aware created=; '
                'the same in child processes with TZ=Asia/Kolkata, America/Los_Angeles (+2 zones thorough); public integers of 1..4100 bits with leading '
                'zero bits, EC coordinates with leading zero octets / zero, native points starting with zero octets (packets built from raw numbers), '
                'PGPy parse vs model parse; keys ENCODED BY THE MODEL (existing numbers, other creation time) read by Packet() and PGPKey.from_blob; '
@@ -15,7 +15,7 @@ CFG = cfg('C18', extract='Ex_C18', driver='c18',
                    'hashlib SHA-1 (primitive oracle; the same library PGPy calls)'],
           assumptions=['SHA-1 is a universally quantified function in the theorems (20 well-formed octets where the key id is concerned); hashing by '
                        'successive update() calls is modelled as hashing the concatenation',
-                       'datetime/calendar arithmetic is modelled as the integer it yields (wall-clock fields read as UTC); reached through the correspondence run only',
+                       'datetime/calendar arithmetic is modelled as the integer it yields (the instant of an aware datetime, the fields of a naive one read as UTC); reached through the correspondence run only, with the direct oracle stored octets = int(dt.timestamp())',
                        'source text of PubKeyV4.fingerprint and PrivKeyV4.pubkey is pinned (nothing here is machine-translated)'])
 
 TEXT = ('Rocq theorems (Props/C18.v, closed under the global context): publen() is the real length of the public material for every algorithm '
@@ -24,7 +24,8 @@ TEXT = ('Rocq theorems (Props/C18.v, closed under the global context): publen() 
         'the secret material, first+last length octet) equals SHA-1(0x99 || len2 || exported body) whenever 6+publen < 65536; it depends on creation time, '
         'algorithm and public material only and is invariant along every op list of protect / unlock / lock / pubkey / copy / export+import (induction, '
         'uses the parse-after-emit theorem); key id = low 64 bits; emitted Issuer / IssuerFingerprint / PKESK fields read back as the id. Outside the '
-        'premises: refutation + characterisation for algorithm ids without a material class (publen 0) and for bodies >= 65536 octets. Tie: extracted '
+        'premises: public keys of algorithm ids without a material class get the RFC value (theorem; the code before repair e03112d, publen 0, is refuted and '
+        'characterised), private ones are characterised and refuted (whole stored material hashed, empty twin); bodies >= 65536 octets characterised. Tie: extracted '
         'model with hashlib as SHA-1 oracle is an independent fingerprint calculator and key-packet encoder run against PGPy; source of the two anchored '
         'methods pinned.',
         'DESIGN.md 5 C18',
